@@ -113,6 +113,18 @@ func famC20(g *Gen, o *Out, n int, thorough bool) {
 			case k < 3:
 				id, once := nextID, g.pick(2) == 0
 				nextID++
+				if g.pick(4) == 0 || (c < 2 && i == 0) {
+					// a callback that registers another one while it runs (a "first byte" hook installing a counter)
+					id2, once2 := nextID, g.pick(2) == 0
+					nextID++
+					dcw.OnPut(func(int) {
+						fired = append(fired, fmt.Sprint(id))
+						dcw.OnPut(func(int) { fired = append(fired, fmt.Sprint(id2)) }, once2)
+					}, once)
+					o.Line(fmt.Sprintf("donput id=%d once=%d spawn=%d sonce=%d", id, b2i(once), id2, b2i(once2)), "r=ok fired=- "+state())
+					o.Count("onput/registering-callback")
+					break
+				}
 				dcw.OnPut(func(int) { fired = append(fired, fmt.Sprint(id)) }, once)
 				o.Line(fmt.Sprintf("donput id=%d once=%d", id, b2i(once)), "r=ok fired=- "+state())
 			case k < 5:
